@@ -4,7 +4,7 @@
    universe of Python values). *)
 From Coq Require Import List String Ascii Bool Arith ZArith.
 Import ListNotations.
-From ClasticV Require Import Base.Py Base.Strs Base.Sx Model.Render Proofs.RenderProofs.
+From ClasticV Require Import Gen.MoreShapes Base.Py Base.Strs Base.Sx Model.Render Proofs.RenderProofs.
 Local Open Scope list_scope.
 Local Open Scope string_scope.
 
@@ -57,3 +57,90 @@ Example C17_example :
   render_basic (PList [PInt 1]) FAbsent (Some "text/html") = Ok RTable /\
   normalise false (PList [PPlain "<obj>"]) = Raise "TypeError".
 Proof. vm_compute. repeat split; reflexivity. Qed.
+
+Local Open Scope string_scope.
+Local Open Scope list_scope.
+(* obligation on the source: the control-flow skeletons of the JSON encoder default, JSONRender, JSONPRender and BasicRender, regenerated from the source on every run.  The model is a
+   hand transcription of exactly these statements: any edit re-opens the correspondence question (the check then searches
+   for a failing input and reports what it finds) *)
+Theorem C17_render_shape :
+  SK_CLASTICJSONENCODER_DEFAULT =
+  ["if isinstance(obj, Mapping)";
+   "  try";
+   "    return dict(obj)";
+   "  except Exception";
+   "    pass";
+   "if isinstance(obj, Sized) and isinstance(obj, Iterable)";
+   "  try";
+   "    return list(obj)";
+   "  except Exception";
+   "    pass";
+   "if not isinstance(obj, type)";
+   "  if callable(getattr(obj, 'to_dict', None))";
+   "    return obj.to_dict()";
+   "  if callable(getattr(obj, 'asdict', None))";
+   "    return obj.asdict()";
+   "  if callable(getattr(obj, 'isoformat', None))";
+   "    return obj.isoformat()";
+   "if self.dev_mode";
+   "  return repr(obj)";
+   "raise TypeError('cannot serialize to JSON: %r' % obj)"] /\
+  SK_JSONRENDER_CALL =
+  ["if self.streaming";
+   "  json_iter = self.json_encoder.iterencode(context)";
+   "else";
+   "  json_iter = [self.json_encoder.encode(context)]";
+   "resp = Response(json_iter, mimetype='application/json')";
+   "resp.mimetype_params['charset'] = self.encoding";
+   "return resp"] /\
+  SK_JSONPRENDER_CALL =
+  ["cb_name = request.args.get(self.qp_name, None)";
+   "if not cb_name";
+   "  return super(JSONPRender, self).__call__(context)";
+   "json_iter = self.json_encoder.iterencode(context)";
+   "resp_iter = itertools.chain([cb_name, '('], json_iter, [');'])";
+   "resp = Response(resp_iter, mimetype='application/javascript')";
+   "resp.mimetype_params['charset'] = self.encoding";
+   "return resp"] /\
+  SK_BASICRENDER_RENDER_RESPONSE =
+  ["if isinstance(context, str)";
+   "  context = context.encode('utf8')";
+   "if isinstance(context, bytes)";
+   "  if self._guess_json(context)";
+   "    return Response(context, mimetype='application/json')";
+   "  else";
+   "    if b'<html' in context[:168]";
+   "      return Response(context, mimetype='text/html')";
+   "    else";
+   "      return Response(context, mimetype='text/plain')";
+   "if not isinstance(context, Sized)";
+   "  return Response(str(context), mimetype='text/plain')";
+   "return self._serialize_to_resp(context, request, _route)"] /\
+  SK_BASICRENDER_SERIALIZE_TO_RESP =
+  ["req_format = request.args.get(self.qp_name)";
+   "if req_format and req_format not in self._format_mime_map";
+   "  raise ValueError('format expected one of %r, not %r' % (self.formats, req_format))";
+   "resp_mime = self._format_mime_map.get(req_format)";
+   "if not resp_mime and request.accept_mimetypes";
+   "  resp_mime = request.accept_mimetypes.best_match(self.mimetypes)";
+   "if resp_mime not in self._mime_format_map";
+   "  resp_mime = self._default_mime";
+   "if resp_mime == 'application/json'";
+   "  return self.json_render(context)";
+   "else";
+   "  if resp_mime == 'text/html'";
+   "    return self.tabular_render(context, _route)";
+   "return Response(str(context), mimetype='text/plain')"] /\
+  SK_BASICRENDER_GUESS_JSON =
+  ["if not bytestr";
+   "  return False";
+   "else";
+   "  if bytestr[:1] == b'{' and bytestr[-1:] == b'}'";
+   "    return True";
+   "  else";
+   "    if bytestr[:1] == b'[' and bytestr[-1:] == b']'";
+   "      return True";
+   "    else";
+   "      return False"].
+Proof. repeat split; reflexivity. Qed.
+Print Assumptions C17_render_shape.
